@@ -557,10 +557,12 @@ impl FileStateMachine {
         let mut pos = 0;
         let mut operations = Vec::new();
         let mut replayed_count = 0;
+        // (index, term) of the last complete record: the recovered data contains it
+        let mut last_replayed: Option<(u64, u64)> = None;
 
         while pos + 17 < buffer.len() {
             // Read entry index (8 bytes)
-            let _index = u64::from_be_bytes(buffer[pos..pos + 8].try_into().unwrap());
+            let index = u64::from_be_bytes(buffer[pos..pos + 8].try_into().unwrap());
             pos += 8;
 
             // Read entry term (8 bytes)
@@ -653,6 +655,7 @@ impl FileStateMachine {
             let expire_at_secs = if secs > 0 { Some(secs) } else { None };
 
             operations.push((op_code, key, value, term, expire_at_secs));
+            last_replayed = Some((index, term));
             replayed_count += 1;
         }
 
@@ -757,11 +760,20 @@ impl FileStateMachine {
             replayed_count, applied_count, skipped_expired
         );
 
-        // Unconditionally clear WAL after replay. load_data() already restored the last
-        // checkpoint; WAL is only the post-checkpoint delta. Even if 0 entries were applied
-        // (e.g. truncated tail only), the WAL is stale. Keeping it would cause infinite
-        // replay-of-the-same-truncated-entry on every subsequent startup.
-        self.clear_wal_async().await?;
+        // The data now contains every replayed entry: report them as applied, otherwise Raft
+        // re-applies (last_applied, last replayed] on a state that already contains them.
+        if let Some((index, term)) = last_replayed {
+            if index > self.last_applied_index.load(Ordering::SeqCst) {
+                self.last_applied_index.store(index, Ordering::SeqCst);
+                self.last_applied_term.store(term, Ordering::SeqCst);
+            }
+        }
+
+        // Make the recovered state the new checkpoint (data, then applied index, then clear the WAL);
+        // clearing the WAL alone would leave the replayed entries nowhere on disk. Even if 0 entries
+        // were applied (e.g. truncated tail only) the WAL is stale and must go, or the same
+        // truncated entry would be replayed on every subsequent startup.
+        self.checkpoint().await?;
         debug!(
             "Cleared WAL after replay ({} operations applied)",
             applied_count
